@@ -179,6 +179,11 @@ def generate(rng):
                 feats.remove("prev_hedge")  # fit() materialises lazy layers with the default hedge (see C15)
                 if not feats:
                     feats = ["underlier_spot"]
+            if H == 1 and not want_share and mk in ("linear", "mlp", "sin") and rng.chance(0.12):
+                # round-7 mutant C03-m: a model that hands its single input through, the input being a view of an instrument buffer;
+                # whatever the hedger writes into the model's output in place would land in the market data
+                mk = "passthrough"
+                feats = [rng.choice([f for f in ("underlier_spot", "underlier_spot", "variance", "spot") if f in adm])]
             nin = 0
             for f in feats:
                 nin += H if f == "prev_hedge" else 1
@@ -276,7 +281,7 @@ def generate(rng):
             d = dk[rng.choice(compat[h["id"]])]
             ul = d["underlier"]
             ck = rng.wchoice([("hedge", 3), ("pl", 3), ("portfolio", 2), ("loss", 2), ("price", 2), ("fit", 1)])
-            if ck == "fit" and mk_of[h["id"]] in ("bs", "ww", "naked"):
+            if ck == "fit" and mk_of[h["id"]] in ("bs", "ww", "naked", "passthrough"):
                 ck = "loss"
             if ck in NONRESIM and (sim[ul] is None or too_short(d)):
                 n = rng.choice([1, 2, 3, 4])
